@@ -25,7 +25,8 @@ RULE = ("Hypothesis-drawn models.py (1..3 declarative classes: single-word, Titl
         "table name plain or with _tbl; explicit primary key at any position or none (inferred); 1..6 columns of "
         "String/Integer/Float/Boolean/JSON/Enum with comment, default, nullable) x histories of 1..6 `gen_routes` CLI "
         "commands (crud in C,R,D,CR,CD,CRD, rarely the refused RD/U forms; default or explicit --route prefix, rarely one "
-        "with a path parameter; default or second --app-name; first or second routes file; in-process restart) run "
+        "with a path parameter; default or second --app-name; first or second routes file, both passed to openapi_bulk "
+        "in a fixed order; in-process restart) run "
         "through cdd.__main__.main under the open/audit seams. After every command that changed or may have changed "
         "the state, cdd.compound.openapi.gen_openapi.openapi_bulk is called for every app requested so far and E1..E7 "
         "are judged against the union of the requests. ~30% of histories carry one fault (I/O error with kept prefix "
@@ -39,8 +40,13 @@ ASSUMPTIONS = [
     "faults are one-shot; process-crash semantics (closed files persist, open buffers are lost); no power loss",
     "E5 compares the POST/GET/DELETE operations of the document with R; the item path is `<route>/{pk}` where pk is "
     "the explicit primary-key column, and for a model without one any single column of the model is accepted",
-    "a request the CLI or the generator refuses (RD is not an argparse choice, U has no template) is not a violation; "
-    "it must leave the world unchanged",
+    "a request the CLI or the generator refuses (RD is not an argparse choice, U has no template) is not a violation "
+    "and does not advance R; whatever a failed command left in the routes file is undone by the same recovery",
+    "an operation that already lives in one routes file is never requested into the other one (the same method on "
+    "the same path twice has no defined meaning): such a command is directed to the file that holds the operation",
+    "models.py stays in the shape the tool can read: no two classes on one table, Enum columns with two values "
+    "(three or more make openapi_bulk raise, which is not judged), at most one column without comment= per model "
+    "and only in 1 of 16 models (gen_routes raises KeyError('doc') on those, which is not judged either)",
     "openapi_bulk raising is not judged (the statement is about the document produced); the probe `openapi_ok` "
     "guards against vacuity",
     "E7 looks a model's schema up under its class name and, failing that, under the key the tool derives from the "
@@ -531,7 +537,7 @@ def simulate(plan):
     res = SimResult()
     res.plan_digest = digest_of(plan)
     stats = {"commands": 0, "evaluations": 0, "outcomes": {}, "faults_fired": {}, "fault_sites": [], "probes": {},
-             "world_states": [], "extra": {"clause_counts": {}}}
+             "world_states": [], "extra": {"violations_by_class_per_evaluated_step": {}}}
     res.stats = stats
     probe = stats["probes"]
     models = plan["models"]
@@ -644,7 +650,7 @@ def simulate(plan):
                     else:
                         doc_digests.append("%s:%s" % (o2.kind, o2.exc_type))
             for x in viols:
-                _bump(stats["extra"]["clause_counts"], "%s:%s" % (x["clause"], ",".join("%s=%s" % kv for kv in sorted(x["sig"].items()))))
+                _bump(stats["extra"]["violations_by_class_per_evaluated_step"], "%s:%s" % (x["clause"], ",".join("%s=%s" % kv for kv in sorted(x["sig"].items()))))
                 x["detail"] = "cmd %d `%s`: %s" % (ci, " ".join(op["argv"]), x["detail"])
             res.violations += viols
             ccmd = dict(cmd)
@@ -665,6 +671,10 @@ def simulate(plan):
         _bump(stats["extra"], "histories_satisfying_every_clause")
     else:
         _bump(stats["extra"], "histories_violating_a_clause")
+        per_history = stats["extra"].setdefault("histories_by_violation_class", {})
+        for k in sorted(set("%s:%s" % (x["clause"], ",".join("%s=%s" % kv for kv in sorted(x["sig"].items())))
+                            for x in res.violations)):
+            _bump(per_history, k)
     res.trace = {"kind": "c16-plan", "plan": concrete, "files": files,
                  "history": [{"argv": h["argv"], "outcome": dict((k, v) for k, v in h["outcome"].items() if k != "msg"),
                               "violated": h["violated"]} for h in history],
@@ -682,7 +692,7 @@ def simulate(plan):
 # ------------------------------------------------------------------------------ runner interface
 def plan(tier, seed, scale=1.0):
     n_workers = 16
-    per = int({"quick": 700, "thorough": 9000}[tier] * scale)
+    per = int({"quick": 900, "thorough": 12000}[tier] * scale)
     return [{"seed": seed * 1000 + w, "n": per, "tier": tier} for w in range(n_workers)]
 
 
